@@ -72,8 +72,8 @@ CONFIG = {
                 "classes; distinct by case text",
         "assumptions": ["ascendingIndex = max-qualification-first distillation (naming fixed by the matrices pinned in distilation_test.go)",
                         "instances where a reference comparison has a non-zero margin below 1e-9 are skipped as ambiguous (counted)"],
-        "quick": {"checks": 15000, "shards": 8, "min_nontrivial": 20000},
-        "thorough": {"checks": 200000, "shards": 14, "min_nontrivial": 250000, "timeout": 3000},
+        "quick": {"checks": 30000, "shards": 8, "min_nontrivial": 40000},
+        "thorough": {"checks": 300000, "shards": 14, "min_nontrivial": 400000, "timeout": 3000},
         "mandatory_labels": ["C05:inner-distillation", "C05:tie-on-criterion-without-q-p"],
     },
     "C06": {
@@ -83,8 +83,8 @@ CONFIG = {
                 "twins => equal indices; permutation / weight scaling => same indices. Non-trivial = a strictly dominated pair "
                 "with a tie on some criterion among >= 3 considered alternatives; distinct by request text",
         "assumptions": ["instances where a reference comparison has a non-zero margin below 1e-9 are not judged for dominance (counted as ambiguous)"],
-        "quick": {"checks": 12000, "shards": 8, "min_nontrivial": 15000},
-        "thorough": {"checks": 150000, "shards": 14, "min_nontrivial": 200000, "timeout": 3000},
+        "quick": {"checks": 40000, "shards": 8, "min_nontrivial": 50000},
+        "thorough": {"checks": 400000, "shards": 14, "min_nontrivial": 500000, "timeout": 3000},
         "mandatory_labels": ["C06:twins", "C06:dominated-pairs"],
     },
     "C08": {
@@ -243,10 +243,12 @@ CONFIG = {
                 "a bias; distinct by batch text",
         "assumptions": ["schedules are sampled, not enumerated; the race detector flags unsynchronised conflicting accesses on the executed paths independent of timing",
                         "for rejected requests only the status is compared (error texts may list registry names in map order)"],
-        "quick": {"checks": 250, "shards": 8, "min_nontrivial": 1200, "race": True, "gomaxprocs": [2, 4, 16, 8], "death_is_violation": True},
+        "quick": {"checks": 250, "shards": 8, "min_nontrivial": 1200, "race": True, "gomaxprocs": [2, 4, 16, 8], "death_is_violation": True,
+                  "post": {"run": "^TestC10Cold$", "procs": 64, "parallel": 16}},
         "thorough": {"checks": 4000, "shards": 14, "min_nontrivial": 20000, "race": True, "server": True, "gomaxprocs": [2, 4, 16, 8],
-                     "death_is_violation": True, "timeout": 3000},
-        "mandatory_labels": ["C10:rejected-request-in-batch"],
+                     "death_is_violation": True, "timeout": 3000, "post": {"run": "^TestC10Cold$", "procs": 480, "parallel": 16}},
+        "mandatory_labels": ["C10:rejected-request-in-batch", "C10:cold-start-batches"],
+        "replay_fresh_runs": 30,
     },
     "C20": {
         "rule": "cases = request bodies of four kinds: valid generated requests (20%), constraint-level mutants = exactly one documented "
